@@ -41,8 +41,16 @@ def draw_ord_fields(rng, td, mode, explicit_rank_p=0.5):
     carriers = {"ord": ["Ord"], "partialord": ["PartialOrd"], "both": ["Ord", "PartialOrd"]}[mode]
     for v in td.variants:
         n = len(v.fields)
-        ranks = rng.sample(range(-6, 7), n)
-        big = rng.random() < 0.1
+        style = rng.random()
+        if style < 0.12:
+            # magnitudes: beyond i32, around the ends of isize (default ranks are isize::MIN + position)
+            I_MIN, I_MAX = -2 ** 63, 2 ** 63 - 1
+            pool = [I_MAX - k for k in range(8)] + [I_MIN + 100 + k for k in range(8)] + [2 ** 31 + k for k in range(-2, 3)] + \
+                   [-2 ** 31 + k for k in range(-2, 3)] + [2 ** 32 + k for k in range(3)] + [-1, 0, 1]
+            ranks = rng.sample(pool, n)
+        else:
+            ranks = rng.sample(range(-8, 14), n)
+        big = style >= 0.12 and rng.random() < 0.1
         for idx, f in enumerate(v.fields):
             r = rng.random()
             req = {"ignore": r < 0.25, "method": None, "rank": None}
